@@ -1,6 +1,7 @@
 package rules
 
 import (
+	"go/constant"
 	"go/token"
 	"go/types"
 	"regexp"
@@ -66,6 +67,7 @@ func stripIface(v ssa.Value) ssa.Value {
 func c13(c *Ctx) {
 	c.sectionDispatch()
 	c.partStartsAtScanStart()
+	c.headerEndsAtFirstEmptyLine()
 	c.sectionWindow("R13.5")
 	P, R := c.P, c.R
 	c.singleIDHeader("R13.4")
@@ -797,4 +799,63 @@ func BlockInCycle(b *ssa.BasicBlock) bool {
 		}
 	}
 	return false
+}
+
+// headerEndsAtFirstEmptyLine (R13.8): the header/body split is found line by line.
+func (c *Ctx) headerEndsAtFirstEmptyLine() {
+	P, R := c.P, c.R
+	R.Explain("R13.8", "the header ends at the first empty line, whatever ends the lines: rfc822.Split (used for the message, every MIME part and embedded messages) looks for its split point only with single-byte searches (bytes.Index / IndexByte for one byte, i.e. the next line break) and returns b[0:k], b[k:] with one k.  A search for a fixed multi-byte terminator (\"\\r\\n\\r\\n\") misses an empty first line and bare-LF or mixed line endings and puts the boundary - hence BODY[HEADER], BODY[TEXT], BODY[n] and BODY[n.MIME] - in the wrong place.  A rewrite that decides the split by a multi-byte pattern search is reported even if it were to handle those cases by other means.")
+	f := c.fn("R13.8", "rfc822.Split")
+	if f == nil {
+		return
+	}
+	n := 0
+	for _, cs := range engine.Calls(f) {
+		sc := cs.Common().StaticCallee()
+		if sc == nil {
+			continue
+		}
+		pk := engine.PkgPathOf(sc)
+		if pk != "bytes" && pk != "strings" {
+			continue
+		}
+		switch sc.Name() {
+		case "Index", "LastIndex", "Cut", "Split", "SplitN", "SplitAfter", "SplitAfterN", "Contains", "HasPrefix", "HasSuffix":
+		default:
+			continue
+		}
+		if len(cs.Common().Args) < 2 {
+			continue
+		}
+		n++
+		pat := cs.Common().Args[1]
+		one := false
+		if sl, ok := pat.(*ssa.Slice); ok {
+			if al, ok := sl.X.(*ssa.Alloc); ok {
+				if arr, ok := al.Type().Underlying().(*types.Pointer).Elem().Underlying().(*types.Array); ok && arr.Len() == 1 {
+					one = true
+				}
+			}
+		}
+		if k, ok := pat.(*ssa.Const); ok && k.Value != nil && k.Value.Kind() == constant.String && len(constant.StringVal(k.Value)) == 1 {
+			one = true
+		}
+		R.Check(one, "R13.8", c.name(f)+"|"+pk+"."+sc.Name()+" pattern", P.Pos(cs.Pos()), "single-byte search (next line break)", "Split searches for a pattern that is not a single byte: the end of the header is taken from a fixed terminator instead of the first empty line (empty first line, bare-LF and mixed line endings are split at the wrong place)")
+	}
+	R.Min("R13.8", "pattern searches in rfc822.Split", n, 1)
+	// one split index
+	for _, ret := range engine.Returns(f) {
+		if len(ret.Results) != 2 {
+			continue
+		}
+		a, okA := ret.Results[0].(*ssa.Slice)
+		b, okB := ret.Results[1].(*ssa.Slice)
+		ok := okA && okB && a.X == b.X && a.High != nil && a.High == b.Low && b.High == nil
+		if okA && a.Low != nil {
+			if k, isK := a.Low.(*ssa.Const); !isK || k.Int64() != 0 {
+				ok = false
+			}
+		}
+		R.Check(ok, "R13.8", c.name(f)+"|partition", P.Pos(ret.Pos()), "returns b[0:k], b[k:]", "Split does not return a partition b[0:k], b[k:] of its input at one index: HEADER followed by TEXT is no longer BODY[]")
+	}
 }
